@@ -928,11 +928,13 @@ struct Exec : public crab::cfg::statement_visitor<label_t, number_t, varname_t> 
       m.stop = true;
       return;
     }
+    m.call_stack.push_back(callee);
     EndReason r = m.run_frame(cf, "");
     if (r != EndReason::EXIT) {
-      m.stop = true; // end already set
+      m.stop = true; // end already set (the stack is kept: monitors may still look at it)
       return;
     }
+    m.call_stack.pop_back();
     m.stop = false;
     m.log(Event::RET, s.get_func_name());
     for (unsigned i = 0; i < s.get_num_lhs(); i++) {
@@ -1035,6 +1037,8 @@ EndReason Machine::run(CrabFunction &fn, const Store &init, const std::string &s
   f.depth = 0;
   stop = false;
   end = EndReason::EXIT;
+  call_stack.clear();
+  call_stack.push_back(&fn);
   init_scalars(f);
   EndReason r = run_frame(f, start);
   final_store = f.st;
